@@ -641,7 +641,9 @@ def rule_r7(F, rep, rid="C12.R7"):
         # `thunk.state()` returns a guard / reference to the state: model its result as a reference to a tracked place
         def cres(w, bb, t, env, args, v=v):
             nm = callee_name(t) or ""
-            if nm.endswith("::state"):
+            dty = w.body.ty(t["dst"]["t"])["s"] if "t" in t["dst"] else ""
+            if nm.endswith("::state") or ("ThunkState" in dty and (nm.endswith("RefCell>::borrow") or dty.startswith("&") or "Ref<" in dty)):
+                # `thunk.state()` / `self.state.borrow()`: a guard on the thunk's state
                 env["st"] = ("var", TS, v)
                 return ("ref", "st")
             if nm.endswith("::deref") or nm.endswith("Deref::deref"):
